@@ -206,7 +206,7 @@ class Typer:
             a = s.ty(at[1]); return ('size', a[1][0]) if a[0] == 'arr' and len(a[1]) == 1 else ('size', U('size'))
         if h in ('carried',): return unk('carried')
         if h in ('num', 'pow', 'floor', 'mod', 'sentinel'): return NUM
-        if isinstance(h, str) and h in ('flatnonzero', 'nonzero', 'where', 'any', 'all', 'diag', 'isnan', 'isfinite', 'logical_not', 'hstack', 'vstack', 'concatenate'):
+        if isinstance(h, str) and h in ('flatnonzero', 'nonzero', 'where', 'any', 'all', 'diag', 'diagonal', 'setdiff1d', 'unique', 'sort', 'isnan', 'isfinite', 'logical_not', 'hstack', 'vstack', 'concatenate'):
             # the same function in its atom spelling (its first argument was a plain term): keyword pairs become keyword operands
             ops = [('opq', 'kw', x[0], x[1]) if isinstance(x, tuple) and len(x) == 2 and isinstance(x[0], str) and x[0] in ('axis', 'k', 'dtype') else x for x in at[1:]]
             return s.opq(('opq', 'np.' + h) + tuple(ops))
@@ -368,7 +368,17 @@ class Typer:
         if b[0] == 'shape' and isinstance(kk, int) and kk < len(b[1]): return ('size', b[1][kk])
         if b[0] == 'tuple' and isinstance(kk, int) and -len(b[1]) <= kk < len(b[1]): return b[1][kk]
         if b[0] == 'arr': return s.index_array(b, s.index_items(kk), repr(at)[:80])
-        if b[0] in ('labs', 'idxs'): return s.elem(b)
+        if b[0] in ('labs', 'idxs'):
+            kt = s.ty(kk) if isinstance(kk, tuple) else None
+            if kt is not None and kt[0] in ('arr', 'idxs', 'labs', 'vals'):
+                # an array of positions / a mask as index: the selected sub-list (in order), not one element
+                fk = None
+                if kk[:1] == ('comp',) and len(kk) == 4 and len(kk[3]) == 1 and not kk[3][0][1]:
+                    fk = s.filter_key(kk[2], ('β', 0, kk[3][0][0]))
+                if fk is None or not fk.startswith(('in:', 'notin:', 'pred:', 'not:')): fk = 'filter:?#' + _h(kk)
+                if b[0] == 'labs': return ('labs', ('SUB', b[1], fk))
+                return ('idxs', b[1], ('SUB', b[2], fk))
+            return s.elem(b)
         if b[0] == 'circuit': return ('component',)
         return unk('item of ' + b[0])
 
@@ -595,7 +605,20 @@ class Typer:
             c = s.ty(k[2])
             if c[0] == 'arr': return c
             return unk('rows')
-        if tag == 'np.diag':
+        if tag == 'np.setdiff1d' and len(k) >= 4:
+            # the SORTED labels of the first argument that are not in the second
+            a = s.ty(k[2]); d = s.ty(k[3]); name = None
+            if d[0] == 'dict': name = d[1]
+            elif d[0] == 'labs' and flat(d[1]) and flat(d[1])[0][0] == 'ORD': name = flat(d[1])[0][1]
+            if a[0] == 'labs' and name is not None:
+                srt = _sorted_space(a[1])
+                if srt[0] != 'U': return ('labs', ('SUB', srt, 'notin:' + name))
+            return unk('setdiff1d')
+        if tag in ('np.unique', 'np.sort') and len(k) == 3:
+            a = s.ty(k[2])
+            if a[0] == 'labs': return ('labs', _sorted_space(a[1]))
+            return a
+        if tag in ('np.diag', 'np.diagonal'):
             a = s.ty(k[2])
             if a[0] == 'arr' and len(a[1]) == 2:
                 s.ob('diag:square', same(a[1][0], a[1][1]), f"diagonal of {show(a[1][0])} × {show(a[1][1])}", text)
